@@ -240,6 +240,11 @@ class FileIndex(object):
                     # If this check passes, we don't need to continue with the other checks below.
                     return
                 else:
+                    # The index describes another version of the data file. Delete it like any other invalid index:
+                    # if the file is re-indexed and holds no messages, nothing is saved in its place, and the stale
+                    # index would be accepted again if the data file ever returned to the old size.
+                    if delete_on_error:
+                        os.remove(index_path)
                     raise ValueError("Size expected by index file does not match binary file. [size=%d B, "
                                      "expected=%d B]" %
                                      (data_file_size, expected_data_file_size))
